@@ -46,6 +46,9 @@ pub enum FaultKind {
     /// From `k` on, writes that would extend the image fail with StorageFull
     /// until seam call `heal` (0 = never) (F-DF).
     DiskFull { heal: u64 },
+    /// Like `DiskFull`, but the device signals "no room" the other legal way: a write that
+    /// would extend the image returns Ok(0) (what `Cursor<&mut [u8]>` does when it is full).
+    DiskFullZero { heal: u64 },
     /// A read/write at `k` transfers at most `n` (>= 1) bytes (F-SR / F-SW).
     Short { n: usize },
     /// A read/write at `k` fails with `Interrupted`, nothing transferred (F-EI).
@@ -101,6 +104,8 @@ pub struct DiskState {
     pub plan: Vec<Fault>,
     pub rates: Option<Rates>,
     pub disk_full_until: Option<u64>, // Some(heal) while active; heal 0 = forever
+    /// while the disk is full, refused writes return Ok(0) instead of StorageFull
+    pub disk_full_zero: bool,
     pub crashed: bool,
     pub fired: BTreeMap<&'static str, u64>,
     /// faults fired during the current API call: (k, name)
@@ -137,6 +142,7 @@ impl SimDisk {
             plan: Vec::new(),
             rates: None,
             disk_full_until: None,
+            disk_full_zero: false,
             crashed: false,
             fired: BTreeMap::new(),
             fired_in_call: Vec::new(),
@@ -281,7 +287,13 @@ impl DiskState {
             }
             Some(FaultKind::DiskFull { heal }) => {
                 self.disk_full_until = Some(*heal);
+                self.disk_full_zero = false;
                 // activation itself is not an error; the failing writes count
+                found = None;
+            }
+            Some(FaultKind::DiskFullZero { heal }) => {
+                self.disk_full_until = Some(*heal);
+                self.disk_full_zero = true;
                 found = None;
             }
             _ => {}
@@ -383,7 +395,7 @@ impl Read for SimDisk {
                     s.fire("F-SR");
                 }
             }
-            Some(FaultKind::DiskFull { .. }) | None => {}
+            Some(FaultKind::DiskFull { .. }) | Some(FaultKind::DiskFullZero { .. }) | None => {}
         }
         if fault.is_none() {
             if let Some(r) = s.rates.as_mut() {
@@ -466,7 +478,7 @@ impl Write for SimDisk {
                     s.fire("F-SW");
                 }
             }
-            Some(FaultKind::DiskFull { .. }) | None => {}
+            Some(FaultKind::DiskFull { .. }) | Some(FaultKind::DiskFullZero { .. }) | None => {}
         }
         if fault.is_none() {
             if let Some(r) = s.rates.as_mut() {
@@ -486,7 +498,11 @@ impl Write for SimDisk {
         let end = pos as usize + n;
         if s.disk_full_until.is_some() && end > s.data.len() {
             s.fire("F-DF");
-            s.record(Seam::Write, pos, req, 0, false);
+            let zero = s.disk_full_zero;
+            s.record(Seam::Write, pos, req, 0, zero);
+            if zero {
+                return Ok(0);
+            }
             return Err(io::Error::new(io::ErrorKind::StorageFull, "injected disk full"));
         }
         if end > s.data.len() {
